@@ -180,3 +180,41 @@ func WithPEMText(t *rapid.T, lists []esl.List) []esl.List {
 	}
 	return lists
 }
+
+// GiantESL builds (deterministically, from the kind alone, so that a case file stays small) a well-formed stream of
+// the sizes the formats allow and ordinary inputs never reach: kind 1 is one X.509 list whose single entry is a little
+// over 16 MiB, kind 2 is 34 X.509 lists of exactly 1 MiB each (every power-of-two offset up to 32 MiB is a list
+// boundary) followed by a small SHA-256 list, kind 3 is one SHA-256 list of 350000 hashes.
+func GiantESL(kind int) []esl.List {
+	fill := func(n int, salt byte) []byte {
+		b := make([]byte, n)
+		x := uint32(salt) + 1
+		for i := range b {
+			x = x*1664525 + 1013904223
+			b[i] = byte(x >> 24)
+		}
+		if n > 4 {
+			b[0], b[1] = 0x30, 0x84 // reads like the start of a (long) DER element
+		}
+		return b
+	}
+	switch kind {
+	case 1:
+		n := 16<<20 + 17
+		return []esl.List{{Type: esl.X509, Size: uint32(16 + n), Entries: []esl.Entry{{Owner: Owners[0], Data: fill(n, 1)}}}}
+	case 2:
+		var out []esl.List
+		for i := 0; i < 34; i++ {
+			n := 1<<20 - 28 - 16
+			out = append(out, esl.List{Type: esl.X509, Size: uint32(16 + n), Entries: []esl.Entry{{Owner: Owners[i%len(Owners)], Data: fill(n, byte(i))}}})
+		}
+		return append(out, esl.List{Type: esl.SHA256, Size: 48, Entries: []esl.Entry{{Owner: Owners[0], Data: fill(32, 99)}}})
+	default:
+		l := esl.List{Type: esl.SHA256, Size: 48}
+		all := fill(32*350000, 7)
+		for i := 0; i < 350000; i++ {
+			l.Entries = append(l.Entries, esl.Entry{Owner: Owners[i%len(Owners)], Data: all[32*i : 32*i+32]})
+		}
+		return []esl.List{l}
+	}
+}
